@@ -264,6 +264,13 @@ func runC07(r *hx.Run, replay string) {
 			out[first] = out[first] + " " + text
 			cs.Modified = strings.Join(out, "\n") + "\n"
 		}
+		// a fifth of the files end their lines with CRLF (seeded change C07-file-disable-keeps-carriage-return): the
+		// comment, the rules and the line numbers are the same, only the line ends differ
+		if r.Rng.Intn(5) == 0 {
+			cs.File = strings.ReplaceAll(cs.File, "\n", "\r\n")
+			cs.Modified = strings.ReplaceAll(cs.Modified, "\n", "\r\n")
+			r.Count("line-ends:crlf")
+		}
 		c07Eval(r, cs)
 	}
 }
